@@ -78,8 +78,16 @@ func c05Bulk(tier string, seed int64, idx int, scratch string) rt.CaseResult {
 		c.Violate("begin-failed", err.Error(), replay)
 		return c
 	}
-	for i := 0; i < 40; i++ {
+	// one commit of more than a thousand keys (every other case: a few dozen)
+	ntx := 40
+	if idx%2 == 0 {
+		ntx = 1100 + rng.Intn(700)
+	}
+	for i := 0; i < ntx; i++ {
 		k := fmt.Sprintf("b%05d", rng.Intn(n))
+		if i%3 == 0 {
+			k = fmt.Sprintf("t%05d", i) // keys that exist only through this commit
+		}
 		v := seqrun.Content(fmt.Sprintf("b%d-tx%d", idx, i), 12)
 		if err := tx.Set(ctxBg, k, v); err != nil {
 			c.Violate("write-failed role=bulk", err.Error(), replay)
